@@ -127,8 +127,16 @@ func verifSigConstThrough(root *vNode) bool {
 	return verifConstLike(root.l) && verifConstLike(root.r) && (verifValueChanging(root.l) || verifValueChanging(root.r))
 }
 
+func verifHasCmpBool(n *vNode) bool {
+	if n == nil {
+		return false
+	}
+	return (n.kind == 'B' && n.op == vOpCmpBool) || verifHasCmpBool(n.l) || verifHasCmpBool(n.r)
+}
+
+// also when the bool comparison is inside an operand: its 0/1 result is folded as if it were the left value
 func verifSigStaticBool(root *vNode) bool {
-	return root.op == vOpCmpBool && verifConstLike(root.l) && verifConstLike(root.r)
+	return verifConstLike(root.l) && verifConstLike(root.r) && verifHasCmpBool(root)
 }
 
 // Finding "or with an always-returning left side": parseBinOps marks the right side of `or` dead whenever the left
